@@ -79,9 +79,10 @@ Variable H : list N -> list N.
 Variable expected : N -> list N.
 Variable npieces : N.
 Variable psize : N -> N.
+Variable repaired : bool.
 Hypothesis psize_pos : forall i, i < npieces -> 0 < psize i.
-Notation accept := (accept H expected npieces psize).
-Notation run := (run H expected npieces psize).
+Notation accept := (accept H expected npieces psize repaired).
+Notation run := (run H expected npieces psize repaired).
 Notation J := (J).
 
 (* the generic preservation argument for events that keep the block keys *)
@@ -327,7 +328,8 @@ Qed.
 
 (* ---------- hash_failed: keys, lengths and transfers are untouched; leaders only change in piece i ---------- *)
 Definition HR (i : N) (y y' : block) : Prop :=
-  key y' = key y /\ b_len y' = b_len y /\ b_trans y' = b_trans y /\ (b_idx y <> i -> b_leader y' = b_leader y).
+  key y' = key y /\ b_len y' = b_len y /\ (forall t, In t (b_trans y') -> In t (b_trans y)) /\
+  (b_idx y <> i -> b_trans y' = b_trans y /\ b_leader y' = b_leader y).
 
 Lemma HR_refl : forall i y, HR i y y. Proof. intros. repeat split; auto. Qed.
 
@@ -355,8 +357,11 @@ Qed.
 
 Lemma HR_trans : forall i x y z, HR i x y -> HR i y z -> HR i x z.
 Proof.
-  intros i x y z (A1 & A2 & A3 & A4) (B1 & B2 & B3 & B4). repeat split; try congruence.
-  intro Hn. rewrite B4; [apply A4; exact Hn|]. unfold key in A1. inversion A1. congruence.
+  intros i x y z (A1 & A2 & A3 & A4) (B1 & B2 & B3 & B4).
+  split; [congruence|]. split; [congruence|]. split; [auto|].
+  intro Hn. destruct (A4 Hn) as [E1 E2].
+  assert (Hy : b_idx y <> i) by (unfold key in A1; inversion A1; congruence).
+  destruct (B4 Hy) as [E3 E4]. split; congruence.
 Qed.
 
 Lemma hash_failed_HR : forall s i, Forall2 (HR i) (blocks s) (blocks (hash_failed s i)).
@@ -368,7 +373,7 @@ Proof.
     unfold upd_piece_blocks. apply Forall2_map_r. intro x. destruct (b_idx x =? i); [|apply HR_refl].
     unfold update_failed_block. destruct (find_data _ _ _); repeat split; auto.
   - simpl. unfold upd_piece_blocks. apply Forall2_map_r. intro x. destruct (b_idx x =? i) eqn:E; [|apply HR_refl].
-    repeat split; auto. intro Hn. apply N.eqb_eq in E. contradiction.
+    apply N.eqb_eq in E. split; [reflexivity|]. split; [reflexivity|]. split; [intros t []|]. intro Hn. contradiction.
 Qed.
 
 Lemma Forall2_keys : forall i l l', Forall2 (HR i) l l' -> map key l' = map key l.
@@ -391,14 +396,14 @@ Proof.
   - rewrite (Forall2_keys i _ _ F). exact KU.
   - intros y' Hy'. destruct (Forall2_in_r _ _ _ _ F Hy') as (y & Hy & (_ & E & _)). rewrite E. apply LP. exact Hy.
   - intros q i' b' x t Hc Hx Bx Ht Et. rewrite Ec in Hc. destruct (Forall2_in_r _ _ _ _ F Hx) as (y & Hy & (Ek & El & Etr & _)).
-    rewrite El. eapply CLs; [exact Hc | exact Hy | rewrite <- (key_is_block i' b' x y Ek); exact Bx | rewrite <- Etr; exact Ht | exact Et].
+    rewrite El. eapply CLs; [exact Hc | exact Hy | rewrite <- (key_is_block i' b' x y Ek); exact Bx | apply Etr; exact Ht | exact Et].
   - intros j Hj. rewrite F3, F4, PM in Hj. destruct Hj as [Hj|Hj]; [|discriminate].
     apply all_finished_intro. intros y' Hy' Ej.
     destruct (Forall2_in_r _ _ _ _ F Hy') as (y & Hy & (Ek & El & Etr & Eld)).
     assert (Ei : b_idx y = j) by (rewrite <- (key_idx _ _ Ek); exact Ej).
     assert (Hne : b_idx y <> i) by (intro; subst; congruence).
     pose proof (all_finished_block s j y (HI j (or_introl Hj)) Hy Ei) as Fy.
-    unfold finished in *. rewrite Etr, (Eld Hne), El. exact Fy.
+    destruct (Eld Hne) as [Et2 El2]. unfold finished in *. rewrite Et2, El2, El. exact Fy.
 Qed.
 
 (* ---------- BlockList::BlockList ---------- *)
